@@ -89,17 +89,34 @@ Definition dec_store_ok (o : ostore) (st : store) : bool :=
   forallb (fun p => option_eqb N.eqb (dec_req (Some (snd p))) (iget (fst p) (s_items st))) items.
 
 (* ---- cases ---------------------------------------------------------------------------------- *)
+(* an initial store in decoded form: ri, wi, di, si, (index, request id) *)
+Definition istore := (option N * option N * option (list N) * option N * list (N * N))%type.
+Definition store_of (i : istore) : store :=
+  let '(r, w, d, s, items) := i in mkStore r w d s items.
+
 Inductive vcase :=
 | CHist (cap : Z) (rs : bool) (h : list (list opcode * option nat)) (obs : list iobs)
+| CHistFrom (cap : Z) (rs : bool) (init : istore) (h : list (list opcode * option nat)) (obs : list iobs)
 | CDec (buf : option (list N)) (idx : nat * N) (arr : nat * list N)
     (* observed bytesToItemIndex / bytesToItemIndexArray: class 0 ok, 1 value not set, 2 invalid *)
-| CEnc (n : N) (l : list N) (b1 b2 : list N).
+| CEnc (n : N) (l : list N) (b1 b2 : list N)
+| CRetry (scenario wraps cls : nat).
+    (* retrySender.Send driven to one of its ends; cls: 0 ok, 1 failed, 2 shutdown error *)
+
+Definition send_end_of (n : nat) : send_end :=
+  match n with 0 => SendOk | 1 => SendPermanent | 2 => SendNoMoreRetries | 3 => SendCtxDone | _ => SendStopped end.
+Definition outcome_code (o : outcome) : nat := match o with OOk => 0 | OFailed => 1 | OShutdown => 2 end.
     (* observed itemIndexToBytes n, itemIndexArrayToBytes l *)
 
 Definition check_case (c : vcase) : bool :=
   match c with
   | CHist cap rs h obs =>
       let runs := run_history_obs (mkCfg cap rs) store0 (hist_of h) in
+      list_eqb iobs_eqb (map obs_of runs) obs &&
+      Nat.eqb (length runs) (length obs) &&
+      forallb (fun p => dec_store_ok (snd (fst p)) (i_store (snd p))) (combine obs runs)
+  | CHistFrom cap rs init h obs =>
+      let runs := run_history_obs (mkCfg cap rs) (store_of init) (hist_of h) in
       list_eqb iobs_eqb (map obs_of runs) obs &&
       Nat.eqb (length runs) (length obs) &&
       forallb (fun p => dec_store_ok (snd (fst p)) (i_store (snd p))) (combine obs runs)
@@ -115,17 +132,23 @@ Definition check_case (c : vcase) : bool :=
        | inr ErrInvalid => Nat.eqb (fst arr) 2
        end)
   | CEnc n l b1 b2 => bytes_eqb (itemIndexToBytes n) b1 && bytes_eqb (itemIndexArrayToBytes l) b2
+  | CRetry sc _ cls => Nat.eqb (outcome_code (outcome_of_send (send_end_of sc))) cls
   end.
 
 (* model output, for replay files *)
 Inductive vout :=
 | OHist (obs : list iobs) (evs : list event)
 | ODec (idx : N + derr) (arr : list N + derr)
-| OEnc (b1 b2 : list N).
+| OEnc (b1 b2 : list N)
+| ORetry (cls : nat).
 
 Definition model_out (c : vcase) : vout :=
   match c with
   | CHist cap rs h _ => OHist (model_hist cap rs h) (snd (run_history (mkCfg cap rs) store0 (hist_of h)))
+  | CHistFrom cap rs init h _ =>
+      OHist (map obs_of (run_history_obs (mkCfg cap rs) (store_of init) (hist_of h)))
+            (snd (run_history (mkCfg cap rs) (store_of init) (hist_of h)))
   | CDec buf _ _ => ODec (bytesToItemIndex buf) (bytesToItemIndexArray buf)
   | CEnc n l _ _ => OEnc (itemIndexToBytes n) (itemIndexArrayToBytes l)
+  | CRetry sc _ _ => ORetry (outcome_code (outcome_of_send (send_end_of sc)))
   end.
